@@ -148,17 +148,6 @@ Theorem xmr_encode_inj : forall b1 b2 s, bytes_ok b1 -> bytes_ok b2 ->
   xmr_encode b1 = Ok s -> xmr_encode b2 = Ok s -> b1 = b2.
 Proof. xmr_inst Lemmas.Base58Xmr.encode_inj. Qed.
 
-(* the decoder of the current code: same round trip, accepts everything the checked decoder accepts *)
-Theorem xmr_decode_current_encode : forall b, bytes_ok b ->
-  exists s, xmr_encode b = Ok s /\ xmr_decode_current s = Ok b.
-Proof. xmr_inst Lemmas.Base58Xmr.decode_current_encode. Qed.
-
-Theorem xmr_decode_current_of : forall s b, xmr_decode s = Ok b -> xmr_decode_current s = Ok b.
-Proof. intros s b. apply Lemmas.Base58Xmr.decode_current_of. Qed.
-
-Theorem xmr_decode_current_err : forall s e, xmr_decode_current s = Err e -> e = ValueError.
-Proof. intros s e. apply Lemmas.Base58Xmr.decode_current_err. Qed.
-
 (* __UnPad's slice start len(dec) - unpad_len is never negative, for every block string *)
 Theorem xmr_block_dec_length : forall s d e dec, nth_error xmr_block_enc_lens d = Some e -> length s = e ->
   xmr_b58dec s = Ok dec -> (d <= length dec)%nat.
@@ -170,19 +159,8 @@ Theorem xmr_block_canonical_iff : forall s d e dec v,
   (xmr_pad e (xmr_b58enc (unpad d dec)) = s <-> v < 256 ^ N.of_nat d).
 Proof. xmr_inst_d Lemmas.Base58Xmr.block_canonical_iff. Qed.
 
-(* F2: the CURRENT decoder accepts "zz" (block value 3363 >= 256) and returns 0x23, whose encoding is "1c";
-   the checked decoder rejects it *)
-Theorem xmr_current_canonical_refuted : exists s b, xmr_decode_current s = Ok b /\ xmr_encode b <> Ok s.
-Proof.
-  exists [122; 122], [35]. split; [vm_compute; reflexivity|vm_compute; discriminate].
-Qed.
-Theorem xmr_current_differs : exists s b, xmr_decode_current s = Ok b /\ xmr_decode s = Err ValueError.
-Proof. exists [122; 122], [35]. split; vm_compute; reflexivity. Qed.
-
-(* and a full 11-character block whose value exceeds 2^64 is silently truncated by the current code *)
-Theorem xmr_current_overflow_accepted : exists s b v, xmr_decode_current s = Ok b /\ xmr_block_value s = Ok v /\
-  length b = 8%nat /\ 256 ^ 8 <= v.
-Proof.
-  exists (repeat 122 11). eexists. eexists. split; [vm_compute; reflexivity|].
-  split; [vm_compute; reflexivity|]. split; [reflexivity|]. vm_compute. discriminate.
-Qed.
+(* Historical witness (defect F2, repaired in /repo by the check in __UnPad): before the repair the decoder
+   accepted "zz" (block value 3363 >= 256), returned 0x23, whose encoding is "1c"; and 11 x 'z' (value >= 2^64)
+   was silently truncated.  The decoder now rejects both: *)
+Theorem xmr_overflow_rejected : xmr_decode [122; 122] = Err ValueError /\ xmr_decode (repeat 122 11) = Err ValueError.
+Proof. split; vm_compute; reflexivity. Qed.
